@@ -43,6 +43,23 @@ func main() {
 		}
 		write(fmt.Sprintf("rsa2048-%d", i), rk)
 	}
+	// ECDSA keys one of whose public coordinates has a leading zero octet
+	for _, c := range []struct {
+		n string
+		c elliptic.Curve
+	}{{"p256", elliptic.P256()}, {"p384", elliptic.P384()}, {"p521", elliptic.P521()}} {
+		size := (c.c.Params().BitSize + 7) / 8
+		for {
+			k, err := ecdsa.GenerateKey(c.c, rand.Reader)
+			if err != nil {
+				panic(err)
+			}
+			if len(k.X.Bytes()) < size || len(k.Y.Bytes()) < size {
+				write(c.n+"-shortcoord-1", k)
+				break
+			}
+		}
+	}
 	// RSA moduli of other sizes, also with a bit length that is not a multiple of 8
 	for _, bits := range []int{2049, 2052, 3072} {
 		rk, err := rsa.GenerateKey(rand.Reader, bits)
